@@ -141,11 +141,33 @@ def rule_mzm(ctx):
     it = Interp(pkg, assumptions={"BW": None}, param_classes={"op_input": "optical_signal", "el_input": "electrical_signal"})
     outs = it.run(fi)
     raises = [o for o in outs if o.kind == "raise"]
-    lenraise = [o for o in raises if o.exc == "ValueError" and o.conds and "len" in o.conds[-1][0]]
-    ctx.check("C06.6", bool(lenraise), fi, lenraise[0].node if lenraise else fi.node, "MZM: drive length mismatch", "raises ValueError",
-              "no ValueError on drive/optical length mismatch")
-    polraise = [o for o in raises if o.exc == "ValueError" and o.conds and "pol" in o.conds[-1][0]]
-    ctx.check("C06.4", bool(polraise), fi, polraise[0].node if polraise else fi.node, "MZM: unknown pol", "raises ValueError", "unknown `pol` value is not rejected")
+    # decided on length classes (lengths are only compared with each other and with 1) and on the classes of `pol`
+    from ..rules import _concrete_run
+    la, lb = mk_fn("siglen", [S("op_input.signal")]), mk_fn("siglen", [S("el_input.signal")])
+    probs, where = [], fi.node
+    for na, nb in ((5, 3), (5, 5), (5, 1)):
+        rej, e, out, _i = _concrete_run(pkg, fi, {}, {"BW": None}, {"op_input": "optical_signal", "el_input": "electrical_signal"}, [(la, na), (lb, nb)])
+        must = na != nb and nb != 1
+        if must and not rej:
+            probs.append(f"lengths {na} and {nb} are accepted")
+        elif must and e != "ValueError":
+            probs.append(f"lengths {na} and {nb} raise {e}, documented ValueError")
+        elif not must and rej:
+            probs.append(f"compatible lengths {na} and {nb} are rejected ({e})")
+        if out is not None and (must or rej):
+            where = out.node
+    ctx.check("C06.6", not probs, fi, where, "MZM: drive length mismatch", "raises ValueError; equal lengths or a one-sample drive accepted",
+              "no ValueError on drive/optical length mismatch: " + "; ".join(probs))
+    probs, where = [], fi.node
+    for pv, valid in (("x", True), ("y", True), ("z", False), ("X", False)):
+        rej, e, out, _i = _concrete_run(pkg, fi, {"pol": Const(pv)}, {"BW": None}, {"op_input": "optical_signal", "el_input": "electrical_signal"}, [(la, 5), (lb, 5)])
+        if valid and rej:
+            probs.append(f"pol='{pv}' is rejected ({e})")
+        elif not valid and (not rej or e != "ValueError"):
+            probs.append(f"pol='{pv}' " + ("is accepted" if not rej else f"raises {e}, documented ValueError"))
+        if out is not None and rej:
+            where = out.node
+    ctx.check("C06.4", not probs, fi, where, "MZM: unknown pol", "raises ValueError; 'x' and 'y' accepted", "unknown `pol` value is not rejected: " + "; ".join(probs))
     it = Interp(pkg, assumptions={"op_input": ("notinst", "optical_signal")})
     outs = it.run(fi)
     ctx.check("C06.6", bool(outs) and outs[0].kind == "raise" and outs[0].exc == "TypeError", fi, fi.node, "MZM: non-optical input", "raises TypeError",
@@ -174,9 +196,20 @@ def rule_pm(ctx):
             rets = [o for o in outs if o.kind == "return"]
             raises = [o for o in outs if o.kind == "raise"]
             if kind != "scalar":
-                lr = [o for o in raises if o.exc == "ValueError"]
-                ctx.check("C06.6", bool(lr), fi, lr[0].node if lr else fi.node, f"PM [{kind}]: length mismatch", "raises ValueError",
-                          f"a {kind} drive of the wrong length is not rejected with ValueError")
+                from ..rules import _concrete_run
+                la = mk_fn("siglen", [S("op_input.signal")])
+                lbs = [mk_fn("siglen", [S("el_input.signal")]), S("el_input.signal.size"), mk_fn("len", [S("el_input.signal")])] if kind == "electrical_signal" else [mk_fn("len", [S("el_input")]), S("el_input.size"), Form.atom(("idx", S("el_input.shape"), Form.num(0)))]
+                probs, where = [], fi.node
+                for na, nb in ((5, 3), (5, 5)):
+                    rej, e, out, _i = _concrete_run(pkg, fi, {}, ass, pc, [(la, na)] + [(x, nb) for x in lbs])
+                    if na != nb and (not rej or e != "ValueError"):
+                        probs.append(f"lengths {na} and {nb} " + ("are accepted" if not rej else f"raise {e}"))
+                    elif na == nb and rej:
+                        probs.append(f"equal lengths are rejected ({e})")
+                    if out is not None and rej:
+                        where = out.node
+                ctx.check("C06.6", not probs, fi, where, f"PM [{kind}]: length mismatch", "raises ValueError; equal lengths accepted",
+                          f"a {kind} drive of the wrong length is not rejected with ValueError: " + "; ".join(probs))
             if len(rets) != 1 or not isinstance(rets[0].value, ObjV):
                 ctx.unknown("C06.5", fi, fi.node, f"PM [{case}]", f"{len(rets)} return paths")
                 continue
@@ -279,15 +312,11 @@ def rule_laser(ctx):
             dterm = Form.num(0, 2) * PI * S("df") * S("t")
             lin = E - dterm
             ctx.check("C06.7", "df" not in lin.syms(), fi, node, f"LASER [{case}] offset phase", "exp(j*2*pi*df*t)", f"frequency-offset phase is not 2*pi*df*t (exponent {E!r})")
-        rz = [o for o in outs if o.kind == "raise" and o.exc == "ValueError" and o.conds and "df" in o.conds[-1][0]]
         if df == "notnone":
-            ok = False
-            for o in rz:
-                tnode = _find_test(fi, o.conds[-1][0])
-                if tnode is not None:
-                    v = Interp(pkg).eval(tnode, _st({"df": S("df")}), fi, 0)
-                    ok = v in (mk_fn("gt", [mk_fn("abs", [S("df")]), S("gv.fs") / 2]), mk_fn("ge", [mk_fn("abs", [S("df")]), S("gv.fs") / 2]))
-            ctx.check("C06.7", ok, fi, rz[0].node if rz else fi.node, f"LASER [{case}] |df| > fs/2", "raises ValueError", "offset beyond Nyquist is not rejected with ValueError")
+            # |df| beyond Nyquist: decided on the order classes of df around +-fs/2 (fs = 8 here; df is compared with fs/2 only)
+            from ..rules import Reject, check_range_guard
+            check_range_guard(ctx, "C06.7", fi, "df", Reject(lambda x: abs(x) > 4, [4, -4]), "ValueError", f"LASER [{case}] |df| > fs/2", accept_sample=[0, 3, -3, 4, -4],
+                              assumptions={"lw": lw, "rin": rin}, valuation=[(S("gv.fs"), 8)], integer=False)
 
 
 def _st(env):
